@@ -43,6 +43,8 @@ TRUTHS = [["int5"], ["strx"], ["int5", "strx"], ["strx", "boolf"], ["boolf", "in
 DIFFERENT = ["zeta_int9"]
 # near-miss targets: the truth with one default changed / one trailing parameter more / its last parameter missing / its Literal one member short
 STATES = ["equivalent", "different", "diff_default", "diff_extra", "diff_tail_missing", "diff_literal_short", "missing", "empty"]
+# the target holds the truth's interface but its docstring is in another style (as `doctrans` leaves it): class and method targets
+STYLE_STATES = ["equivalent_google", "equivalent_numpydoc"]
 
 PRE = 'import os\n\n\ndef unrelated_before(q=1):\n    """Unrelated."""\n    return q\n\n\n'
 POST = '\n\nclass UnrelatedAfter(object):\n    """Unrelated."""\n\n    k: int = 3\n'
@@ -78,17 +80,17 @@ def interface(keys):
     return A.mk_ir([(n, PARAM_KINDS[k]) for n, k in zip(names, keys)], None, "Summary line.", name=None)
 
 
-def render_target(kind, ir):
+def render_target(kind, ir, style="rest"):
     import cdd.argparse_function.emit
     import cdd.class_.emit
     import cdd.function.emit
 
     ir = deepcopy(ir)
     if kind == "class":
-        node = cdd.class_.emit.class_(ir, class_name="ConfigClass", emit_default_doc=False)
+        node = cdd.class_.emit.class_(ir, class_name="ConfigClass", emit_default_doc=False, docstring_format=style)
         return PRE + F.render(node) + "\n" + POST
     if kind == "function":
-        node = cdd.function.emit.function(ir, function_name="method", function_type="self", emit_default_doc=False, indent_level=2, emit_as_kwonlyargs=False)
+        node = cdd.function.emit.function(ir, function_name="method", function_type="self", emit_default_doc=False, indent_level=2, emit_as_kwonlyargs=False, docstring_format=style)
         body = "\n".join("    " + l if l.strip() else l for l in F.render(node).split("\n"))
         return PRE + 'class C(object):\n    """C"""\n\n' + body + "\n" + POST
     node = cdd.argparse_function.emit.argparse_function(ir, emit_default_doc=False, function_name="set_cli_args", function_type="static")
@@ -114,6 +116,10 @@ def cases(tier, seed):
                 if any(st.startswith("diff_") and variant(t, st) is None for st in (sa, sb)):
                     continue  # that near miss does not exist for this interface
                 yield dict(truth=truth, iface=t, states={others[0]: sa, others[1]: sb})
+            for sa, sb in itertools.product(STYLE_STATES + ["equivalent"], repeat=2):
+                if (sa, sb) != ("equivalent", "equivalent") and not (sa in STYLE_STATES and others[0] == "argparse_function") and not (sb in STYLE_STATES and others[1] == "argparse_function"):
+                    yield dict(truth=truth, iface=t, states={others[0]: sa, others[1]: sb})
+            for sa, sb in itertools.product(STATES, repeat=2):
                 if t in (TRUTHS[2], TRUTHS[9], TRUTHS[12]) and sa in ("equivalent", "different", "missing") and sb in ("equivalent", "diff_default", "empty"):
                     yield dict(truth=truth, iface=t, states={others[0]: sa, others[1]: sb}, no_word_wrap=True)
 
@@ -207,7 +213,7 @@ def run(case):
             if st == "missing":
                 initial[k] = None
                 continue
-            src = "" if st == "empty" else render_target(k, T if st == "equivalent" else D if st == "different" else variant(case["iface"], st))
+            src = "" if st == "empty" else render_target(k, T, st.split("_")[1]) if st in STYLE_STATES else render_target(k, T if st == "equivalent" else D if st == "different" else variant(case["iface"], st))
             initial[k] = src
             with open(p, "wt") as f:
                 f.write(src)
